@@ -7,7 +7,7 @@
    case := (0 mode lines registry)                                  MafHeader.from_lines (+ print, reparse)
          | (1 mode override registry tables lines)                  MafReader(...) iterated to the end
          | (2 recspec mode tables)                                  MafRecord.from_line
-         | (3 recspec vmode reset scheme? tables)                   from_line(Silent) then record.validate
+         | (3 recspec vmode reset scheme? tables [tampers])         from_line(Silent), in-place edits of stored columns, then record.validate
          | (4 mode hlines registry tables (recspec ...))            MafWriter on the parsed header, each record added
          | (5 hlines registry (mut ...) (mut ...))                  from_reader copy: mutate copy, mutate source, view both
          | (9 case ...)                                             several cases, one reply each
@@ -283,12 +283,43 @@ Definition guard_mrec (tb : tables) (o : out tmrec) : sexp :=
   | Raise _ => enc_out (enc_mrec tb) o
   end.
 
+(* a caller modifying a stored column object in place: record[name].column_index = i
+   or record[name].key = k (the object is in the name map and in its slot) *)
+Inductive tamper := TIdx (name : str) (i : option Z) | TKey (name newkey : str).
+Definition dec_tamper (s : sexp) : option tamper :=
+  match s with
+  | L [A 0; n; i] => match as_str n, as_opt as_Z i with Some n', Some i' => Some (TIdx n' i') | _, _ => None end
+  | L [A 1; n; k] => match as_str n, as_str k with Some n', Some k' => Some (TKey n' k') | _, _ => None end
+  | _ => None
+  end.
+Definition apply_tamper (r : rec (payload Z tentry)) (t : tamper) : rec (payload Z tentry) :=
+  let name := match t with TIdx n _ => n | TKey n _ => n end in
+  match assoc name (rdict r) with
+  | None => r
+  | Some c0 =>
+      let c1 := match t with
+                | TIdx _ i => {| ckey := ckey c0; cidx := i; cval := cval c0 |}
+                | TKey _ k => {| ckey := k; cidx := cidx c0; cval := cval c0 |}
+                end in
+      let same (c : col (payload Z tentry)) :=
+        str_eqb (ckey c) (ckey c0)
+        && match cidx c, cidx c0 with Some a, Some b => a =? b | None, None => true | _, _ => false end in
+      {| rdict := map (fun kc => if str_eqb (fst kc) name then (fst kc, c1) else kc) (rdict r);
+         rlist := map (fun o => match o with
+                                | Some c => if same c then Some c1 else Some c
+                                | None => None
+                                end) (rlist r) |}
+  end.
+
 Definition run_validate (rs : recspec) (vm : option mode) (reset : bool) (sch : option tscheme)
-           (tb : tables) : sexp :=
+           (tb : tables) (ts : list tamper) : sexp :=
   match run_from_line rs (Some Silent) tb with
   | (_, Ok r) =>
       if mrec_missing r then s_bad
-      else L [A 0; guard_mrec tb (record_validate (table_sem tb) r vm LgRoot reset sch)]
+      else
+        let r' := {| mline := mline r; mcols := fold_left apply_tamper ts (mcols r);
+                     merrs := merrs r; mmode := mmode r |} in
+        L [A 0; guard_mrec tb (record_validate (table_sem tb) r' vm LgRoot reset sch)]
   | (_, Raise e) => L [A 1; s_of_exn e]
   end.
 
@@ -370,8 +401,15 @@ Definition dispatch1 (s : sexp) : sexp :=
   | L [A 3; rs; vm; reset; sch; tb] =>
       match dec_recspec rs, as_mode_opt vm, as_bool reset, as_opt dec_scheme sch, dec_tables tb with
       | Some rs', Some vm', Some reset', Some sch', Some tb' =>
-          if spec_complete tb' rs' then run_validate rs' vm' reset' sch' tb' else s_bad
+          if spec_complete tb' rs' then run_validate rs' vm' reset' sch' tb' [] else s_bad
       | _, _, _, _, _ => s_bad
+      end
+  | L [A 3; rs; vm; reset; sch; tb; ts] =>
+      match dec_recspec rs, as_mode_opt vm, as_bool reset, as_opt dec_scheme sch, dec_tables tb,
+            as_listof dec_tamper ts with
+      | Some rs', Some vm', Some reset', Some sch', Some tb', Some ts' =>
+          if spec_complete tb' rs' then run_validate rs' vm' reset' sch' tb' ts' else s_bad
+      | _, _, _, _, _, _ => s_bad
       end
   | L [A 4; m; hl; reg; tb; specs] =>
       match as_mode_opt m, as_listof as_str hl, as_listof dec_scheme_e reg, dec_tables tb,
